@@ -184,6 +184,79 @@ def _f_nodefault(freq, amp=0.1, cutoff=None):
     Out.ar(0, LPF.ar(Saw.ar(freq), cutoff) * amp)
 
 
+# ---- parameter objects that LIVE ACROSS builds (module level, closed over by graph functions): what a build emits
+# may depend on their visible value only, never on which builds (successful or failing) or other library calls
+# used them before
+def _envs():
+    from sc3.synth.envelope import Env
+    return {'a': Env.perc(0.01, 1.0), 'b': Env.adsr(0.02, 0.3, 0.5, 1.0), 'c': Env([0, 1, 0.5, 0], [0.1, 0.2, 0.3], [-4, 'lin', 2]),
+            'd': Env.perc(0.01, 1.0), 'e': Env.linen(0.1, 0.2, 0.3, 0.6)}
+
+
+_ENVS = {}
+
+
+def _env(k):
+    if not _ENVS:
+        _ENVS.update(_envs())
+    return _ENVS[k]
+
+
+def _envgen(e, *a):
+    from sc3.synth.ugens.envgen import EnvGen
+    return EnvGen.kr(e, *a)
+
+
+def _f_env_range_first():        # derived copies of a long-lived Env, BEFORE the Env itself was ever formatted
+    Out.kr(0, [_envgen(_env('a').range(100, 200)), _envgen(_env('a').exprange(20, 2000)), _envgen(_env('a').curverange(0, 5, 2))])
+
+
+def _f_env_plain_a():            # the Env itself (this formats it)
+    Out.kr(0, _envgen(_env('a'), 1, 2, 0.5))
+
+
+def _f_env_plain_b():
+    Out.kr(0, [_envgen(_env('b')), _envgen(_env('c'))])
+
+
+def _f_env_range_later():        # derived copies AFTER the Env itself was formatted by another definition
+    Out.kr(0, [_envgen(_env('b').range(-1, 1)), _envgen(_env('c').exprange(1, 10)), _envgen(_env('b').curverange(3, 4, -2))])
+
+
+def _g_env_used_then_raises():
+    _envgen(_env('d'))
+    _envgen(_env('e'))
+    raise BuildError('after formatting long-lived Env objects')
+
+
+def _f_env_after_failed_use():   # derived / same Env objects that a FAILING build has formatted
+    Out.kr(0, [_envgen(_env('d').range(5, 6)), _envgen(_env('e')), _envgen(_env('e').exprange(2, 3))])
+
+
+def _build_env_history():
+    """Same visible Env values, different history: an Env modified through its public setter after an earlier
+    build used it must build like a fresh Env given the same values."""
+    from sc3.synth.envelope import Env
+
+    def make(e):
+        return lambda: Out.kr(0, [_envgen(e), _envgen(e.range(1, 2))])
+    fresh = Env.perc(0.01, 1.0)
+    fresh.duration = 4.0
+    expected = bytes(SynthDef('x_envdur', make(fresh)).as_bytes())
+    used = Env.perc(0.01, 1.0)
+    SynthDef('x_envearly', make(used))
+    try:
+        used._at(0.3)
+    except Exception:
+        pass
+    used.duration = 4.0
+    sd = SynthDef('x_envdur', make(used))
+    if bytes(sd.as_bytes()) != expected:
+        raise SilentDrop('an Env used by an earlier build and then given duration 4.0 builds differently from a fresh Env '
+                         'with the same levels/times: constants %s' % sorted(sd._constants))
+    return sd
+
+
 def _plain(name, f, *a):
     """A definition built WITHOUT variants / metadata owns fresh, empty ones."""
     def build():
@@ -240,6 +313,12 @@ def alias_report(defs, shared_ok=()):
 
 def good():
     return [
+        ('env_range_first', lambda: SynthDef('x_envr1', _f_env_range_first)),
+        ('env_plain_a', lambda: SynthDef('x_enva', _f_env_plain_a)),
+        ('env_plain_b', lambda: SynthDef('x_envb', _f_env_plain_b)),
+        ('env_range_later', lambda: SynthDef('x_envr2', _f_env_range_later)),
+        ('env_after_failed_use', lambda: SynthDef('x_envf', _f_env_after_failed_use)),
+        ('env_setter_history', _build_env_history),
         ('nodefault', _plain('x_nodef', _f_nodefault)),
         ('plain_three', _plain('x_plain3', _f_three)),
         ('plain_wrap', _plain('x_plainw', _f_wrap)),
@@ -404,6 +483,7 @@ def _build_outside():
 def fails():
     sd = lambda n, f, *a: (lambda: SynthDef(n, f, *a))
     return [
+        ('env_used_then_raises', sd('y0', _g_env_used_then_raises)),
         ('raise_first', sd('y1', _g_raise_first)),
         ('raise_after_controls', sd('y2', _g_raise_after_controls)),
         ('raise_after_units', sd('y3', _g_raise_after_units)),
